@@ -90,4 +90,19 @@ func init() {
 		Technique: "runtime monitoring: online trace checker (cursor model) over recorded stream callbacks",
 		DesignRef: "DESIGN.md §3 C09/C10",
 	})
+	add(Spec{
+		PropSpec: vlib.PropSpec{
+			ID: "C09", Level: "exploration", Rule: asmRule + " Additionally for package reassembly: both directions may carry data through one stream object; on a PRNG subset of deliveries (10/30/80 %) the stream calls KeepFrom(k), k PRNG in [0, available], and the next delivery must present exactly those bytes as saved (or none when it announces a skip).",
+			Assumptions: []string{"segments are handed to Assembler.AssembleWithContext as layers.TCP values built by the harness", "the stream's Accept always returns true and never forces a start", "directions whose start was never seen are checked for lifecycle only"},
+			Phases: []vlib.Phase{
+				{Name: "random", Bin: "vreasm", Quick: 16, Thorough: 16},
+				{Name: "perm", Bin: "vreasm", Quick: 16, Thorough: 16},
+			},
+			Require: []string{"started_directions_checked", "histories_with_wrap", "histories_with_overlap", "histories_with_ooo", "limit_forced_releases", "directions_with_announced_skip", "permutation_histories", "histories_with_flusholder", "histories_with_keep", "directions_with_kept_bytes_represented"},
+		},
+		LevelText: "Runtime monitor: the real reassembly.Assembler is fed generated segment histories; every ReassembledSG/ReassemblyComplete callback is checked online against a cursor model of the sender's byte stream incl. the KeepFrom/saved contract. Exploration over sampled histories, small permutation sets enumerated.",
+		LevelNote: trusted,
+		Technique: "runtime monitoring: online trace checker (cursor model) over recorded stream callbacks",
+		DesignRef: "DESIGN.md §3 C09/C10",
+	})
 }
